@@ -26,7 +26,7 @@ MANIFEST = {
     "technique": "bounded-exhaustive enumeration of maps x frames x queries against a full-scan reference model",
 }
 MANIFEST["text"] += " " + (
-    'Added after the seeding waves: every SQLite map is built twice (bulk inserts; add_node/add_edge single inserts); a far-south latitude-longitude frame at 400 m per unit; radii derived from attained node distances (the element is inside by 1e-4 of the radius); the single-insert build offers every node with ignore_doubles=True and every label a second time with other coordinates (a tile-wise import; the content must stay that of the first offer).')
+    'Added after the seeding waves: every SQLite map is built twice (bulk inserts; add_node/add_edge single inserts); a far-south latitude-longitude frame at 400 m per unit; radii derived from attained node distances (the element is inside by 1e-4 of the radius); the single-insert build offers every node with ignore_doubles=True and every label a second time with other coordinates (a tile-wise import; the content must stay that of the first offer); a third SQLite build with deferred indexing (no_index / no_commit inserts, then reindex_nodes / reindex_edges); and query - EDIT - query on the live in-memory map (the last node is moved by del_node / add_node / add_edge, a size-preserving edit, and every query is asked again).')
 BUDGET = {"quick": 300, "thorough": 1500}
 RULE = ("cases = (frame, map); each enumerates both backends x all query locations x radii x {pair, triple} x max_elmt. "
         "states = distinct (backend, map, frame, query, radius) configurations, transitions = API calls compared with the scan, "
@@ -36,6 +36,7 @@ ASSUMPTIONS = ["planar tolerance 1e-9 x extent, geodesic tolerance 5 cm on dista
                "max_elmt ties at equal distance may be broken either way"]
 
 SHAPE = [(0.0, -10.0), (0.0, 10.0), (1.0, 0.5), (2.0, -1.0), (-1.5, 1.0)]
+SHAPE2 = list(SHAPE)      # the shape after the edit of phase 1 (last node of the map moved)
 QY = [-2.0, -0.5, 0.0, 1.0, 2.5]
 QX = [-3.0, -1.0, 0.0, 0.5, 2.0]
 RADII = [0.4, 0.5, 0.51, 1.0, 1.5, 1.6, 3.0, 5.0, 30.0]
@@ -84,7 +85,7 @@ def edge_sets(tier):
 
 def space(tier):
     return {"frames": FRAMES, "maps": len(edge_sets(tier)), "shape_nodes": SHAPE, "query_grid": [QY, QX], "radii_units": RADII,
-            "max_elmt": [None, 1, 2], "backends": ["InMemMap (no index)", "SqliteMap (bulk inserts)", "SqliteMap (single inserts)"], "location_forms": ["pair", "triple"]}
+            "max_elmt": [None, 1, 2], "backends": ["InMemMap (no index)", "SqliteMap (bulk inserts)", "SqliteMap (single inserts)", "SqliteMap (deferred index, reindex_nodes/reindex_edges)", "InMemMap after a size-preserving edit"], "location_forms": ["pair", "triple"]}
 
 
 def cases(tier):
@@ -115,7 +116,7 @@ def run_case(case):
     graph = {i: (nodes[i], [b for a, b in es if a == i]) for i in nodes}
     tol = 0.05 if latlon else 1e-9 * unit * 30 + 4 * math.ulp(max(max(abs(c) for c in p) for p in nodes.values()))
     ptol = 0.25 if latlon else tol
-    backends = case.get("backends", ["inmem", "sqlite", "sqlite-single-inserts"])
+    backends = case.get("backends", ["inmem", "sqlite", "sqlite-single-inserts", "sqlite-deferred-index"])
     mps = {}
     if "inmem" in backends:
         mps["inmem"] = maps.inmem(graph, use_latlon=latlon)
@@ -124,10 +125,13 @@ def run_case(case):
     if "sqlite-single-inserts" in backends:
         # the same content through add_node / add_edge (per-row index maintenance) instead of the bulk path
         mps["sqlite-single-inserts"] = maps.sqlite(graph, use_latlon=latlon, name="s1", bulk=False)
+    if "sqlite-deferred-index" in backends:
+        mps["sqlite-deferred-index"] = maps.sqlite(graph, use_latlon=latlon, name="s2", bulk="deferred")
     queries = case.get("queries") or [(y, x) for y in QY for x in QX]
     radii = case.get("radii") or RADII
     forms = case.get("forms") or ["pair", "triple"]
-    try:
+
+    def sweep(mps, nodes, es, phase):
         for q0 in queries:
             q0 = tuple(q0)
             q = f(q0)
@@ -142,14 +146,14 @@ def run_case(case):
                     for form in forms:
                         loc = q if form == "pair" else (q[0], q[1], 1234.5)
                         mini = {"frame": case["frame"], "n": n, "edges": es, "queries": [q0], "radii": [r0], "forms": [form],
-                                "backends": [bname]}
+                                "backends": [bname], "phase": phase}
                         res["st"] += 1
                         # ---------------- nodes
                         sure = {k for k, d in dn.items() if d < r - tol}
                         maybe = {k for k, d in dn.items() if abs(d - r) <= tol}
                         forbidden = set()
                         if case["frame"] == "unit":
-                            forbidden = {k for k in maybe if _exact_safe_node(q0, SHAPE[k], r0)}
+                            forbidden = {k for k in maybe if _exact_safe_node(q0, (SHAPE2 if phase else SHAPE)[k], r0)}
                         nontriv = (0 < len(sure) < len(dn)) or bool(maybe)
                         for kk in (None, 1, 2):
                             res["n"] += 1
@@ -201,7 +205,7 @@ def run_case(case):
                         emaybe = {e for e, (d, _, _) in de_.items() if abs(d - r) <= tol}
                         eforb = set()
                         if case["frame"] == "unit":
-                            eforb = {e for e in emaybe if _exact_safe_edge(q0, SHAPE[e[0]], SHAPE[e[1]], r0)}
+                            eforb = {e for e in emaybe if _exact_safe_edge(q0, (SHAPE2 if phase else SHAPE)[e[0]], (SHAPE2 if phase else SHAPE)[e[1]], r0)}
                         # D2 predicate: edges within the radius whose start node lies outside the enclosing box
                         d2_miss = {e for e in esure | emaybe if met.in_box(q, r, nodes[e[0]], tol) == -1}
                         d2_either = {e for e in esure | emaybe if met.in_box(q, r, nodes[e[0]], tol) == 0}
@@ -283,6 +287,25 @@ def run_case(case):
                                 res["v"].append({"msg": f"{bname}.edges_closeto({loc}, max_dist={r}, max_elmt={kk}) [{case['frame']}]: {m}",
                                                  "case": mini})
                             outs.add(("e", kk, len(got), len(de_)))
+
+    try:
+        sweep(mps, nodes, es, 0)
+        if case.get("phase", 1) == 1 and "inmem" in mps and n >= 2:
+            # query - EDIT - query on the live in-memory map: the last node is moved (del_node, add_node at another place,
+            # its outgoing edges added again) - a size-preserving edit - and every query is asked again against the new geometry
+            mv = n - 1
+            moved0 = (SHAPE[mv][0] + 0.75, SHAPE[mv][1] - 1.25)
+            im = mps["inmem"]
+            outs_mv = [b for a, b in es if a == mv]
+            im.del_node(mv)
+            im.add_node(mv, f(moved0))
+            for b in outs_mv:
+                im.add_edge(mv, b)
+            nodes2 = dict(nodes)
+            nodes2[mv] = f(moved0)
+            SHAPE2[:] = list(SHAPE)
+            SHAPE2[mv] = moved0
+            sweep({"inmem": im}, nodes2, es, 1)
     finally:
         for mp in mps.values():
             maps.close(mp)
